@@ -98,7 +98,7 @@ func c06Check(cc *run.Case, ns namedStrat, class string, n int) {
 }
 
 func c06(ctx *run.Ctx) {
-	base := baseStrats(ctx, ctx.Pick(5, 20))
+	base := baseStrats(ctx, ctx.Pick(8, 20))
 	classes := []string{gen.Walk, gen.Walk2, gen.Dyadic, gen.Ties}
 	if !ctx.Quick() {
 		classes = gen.OHLCVClasses
